@@ -415,19 +415,21 @@ def _combine_dups(tier):
 
     a = Acc()
     pool = [((), "a"), (("x",), "a"), ((), "b"), (("x",), "b"), (("x", "y"), "c")]
-    for k in range(0, (3 if tier == "quick" else 4) + 1):
+    # the combine itself lives in the root package, in a package that also holds some of the dependencies, or elsewhere
+    for comb_path in [("z",), (), ("x",)]:
+      for k in range(0, (3 if tier == "quick" else 4) + 1):
         for deps in itertools.product(pool, repeat=k):
             names = [n for _, n in deps]
             exp_dup = len(set(names)) != len(names)
-            inp = {"deps": ["//" + "/".join(p) + ":" + n for p, n in deps]}
+            inp = {"combine": "//" + "/".join(comb_path) + ":comb", "deps": ["//" + "/".join(p) + ":" + n for p, n in deps]}
             a.ev += 1
             if exp_dup and len(set(deps)) == len(deps):
                 a.nt += 1
                 a.sample(inp)
             ids = [TaskIdentifier(pathlib.Path(*p), n) for p, n in deps]
             try:
-                c = Combine(identifier=TaskIdentifier(pathlib.Path("z"), "comb"),
-                            cond_file_path=pathlib.Path("/R/z/COND"), deps=ids)
+                c = Combine(identifier=TaskIdentifier(pathlib.Path(*comb_path), "comb"),
+                            cond_file_path=pathlib.Path("/R", *comb_path, "COND"), deps=ids)
                 got = "accept"
             except errors.CombineDuplicateDepName:
                 got = "CombineDuplicateDepName"
